@@ -990,29 +990,29 @@ const FAMS: &[Fam] = &[
     Fam { name: "fields", cost: 60, gen: |r, _| Op::new(*r.pick(&["fq_ops", "fr_ops", "fq2_ops", "fq6_ops", "fq12_ops", "fields_lite"]), &[r.below(8), r.below(8)]) },
     Fam { name: "misc", cost: 40, gen: |r, _| match r.below(4) { 0 => Op::new("misc", &[r.below(8), r.below(100_000)]), 1 => Op::new("field_random", &[r.below(5), r.below(40)]), _ => Op::new("misc2", &[r.below(10), r.below(1000)]) } },
     Fam { name: "h2f", cost: 30, gen: |r, _| Op::new("h2f", &[r.below(4), r.below(2), r.below(8), r.below(6), r.below(3), r.below(2)]) },
-    Fam { name: "arith", cost: 10, gen: |r, _| gop("arith", &[r.below(8), r.below(8)], r) },
-    Fam { name: "mul", cost: 300, gen: |r, _| gop(["mul", "amul", "ymul"][r.below(3)], &[r.below(8), rk(r)], r) },
-    Fam { name: "affine", cost: 30, gen: |r, _| if r.chance(1, 2) { gop("affine", &[r.below(8)], r) } else { gop("batchnorm", &[r.below(8), if r.chance(1, 8) { 6 + r.below(5) } else { r.below(6) }], r) } },
+    Fam { name: "arith", cost: 10, gen: |r, _| gop("arith", &[r.below(12), r.below(12)], r) },
+    Fam { name: "mul", cost: 300, gen: |r, _| gop(["mul", "amul", "ymul"][r.below(3)], &[r.below(12), rk(r)], r) },
+    Fam { name: "affine", cost: 30, gen: |r, _| if r.chance(1, 2) { gop("affine", &[r.below(12)], r) } else { gop("batchnorm", &[r.below(12), if r.chance(1, 8) { 6 + r.below(5) } else { r.below(6) }], r) } },
     Fam { name: "random", cost: 400, gen: |r, _| gop("random", &[r.below(50)], r) },
-    Fam { name: "wnaf_bs", cost: 350, gen: |r, c| gop("wnaf_bs", &[ctxsel(r, c), r.below(6), r.below(if c.focus == "wnaf" { 14 } else { 9 }), rk(r)], r) },
-    Fam { name: "wnaf_sb", cost: 350, gen: |r, c| gop("wnaf_sb", &[ctxsel(r, c), rk(r), r.below(6)], r) },
+    Fam { name: "wnaf_bs", cost: 350, gen: |r, c| gop("wnaf_bs", &[ctxsel(r, c), r.below(10), r.below(if c.focus == "wnaf" { 14 } else { 9 }), rk(r)], r) },
+    Fam { name: "wnaf_sb", cost: 350, gen: |r, c| gop("wnaf_sb", &[ctxsel(r, c), rk(r), r.below(10)], r) },
     Fam {
         name: "wnaf_multi",
         cost: 900,
         gen: |r, c| {
             if r.chance(1, 2) {
-                gop("wnaf_bs_multi", &[ctxsel(r, c), r.below(6), r.below(9), rk(r), rk(r), rk(r)], r)
+                gop("wnaf_bs_multi", &[ctxsel(r, c), r.below(10), r.below(9), rk(r), rk(r), rk(r)], r)
             } else {
-                gop("wnaf_sb_multi", &[ctxsel(r, c), rk(r), r.below(6), r.below(6), r.below(6)], r)
+                gop("wnaf_sb_multi", &[ctxsel(r, c), rk(r), r.below(10), r.below(10), r.below(10)], r)
             }
         },
     },
-    Fam { name: "wnaf_half", cost: 100, gen: |r, c| if r.chance(1, 2) { gop("wnaf_half", &[ctxsel(r, c), rk(r)], r) } else { gop("wnaf_half_b", &[ctxsel(r, c), r.below(6), r.below(9)], r) } },
-    Fam { name: "wnaf_view", cost: 300, gen: |r, _| if r.chance(1, 2) { gop("wnaf_view_b", &[r.below(2), rk(r)], r) } else { gop("wnaf_view_s", &[r.below(2), r.below(6)], r) } },
-    Fam { name: "wnaf_raw", cost: 600, gen: |r, c| gop("wnaf_raw", &[r.below(6), rk(r), r.range(c.min_window, c.max_window) - 2, r.below(2)], r) },
+    Fam { name: "wnaf_half", cost: 100, gen: |r, c| if r.chance(1, 2) { gop("wnaf_half", &[ctxsel(r, c), rk(r)], r) } else { gop("wnaf_half_b", &[ctxsel(r, c), r.below(10), r.below(9)], r) } },
+    Fam { name: "wnaf_view", cost: 300, gen: |r, _| if r.chance(1, 2) { gop("wnaf_view_b", &[r.below(2), rk(r)], r) } else { gop("wnaf_view_s", &[r.below(2), r.below(10)], r) } },
+    Fam { name: "wnaf_raw", cost: 600, gen: |r, c| gop("wnaf_raw", &[r.below(10), rk(r), r.range(c.min_window, c.max_window) - 2, r.below(2)], r) },
     Fam { name: "rec", cost: 1, gen: |r, _| if r.chance(1, 2) { gop("rec_scalar", &[r.below(nsc())], r) } else { gop("rec_num", &[r.below(4), (r.next() >> r.below(64)) as usize], r) } },
-    Fam { name: "pre3", cost: 150, gen: |r, _| match r.below(7) { 0 => gop("pre3", &[r.below(6)], r), 1 | 2 => gop("pre3_reuse", &[r.below(6), rk(r)], r), 3 => gop("pre3_pack", &[r.below(6), rk(r), r.below(6)], r), _ => gop("mul3", &[r.below(6), rk(r)], r) } },
-    Fam { name: "pre256", cost: 400, gen: |r, c| if c.with_256 && r.chance(4, 6) { gop("mul256", &[r.below(6), rk(r)], r) } else if r.chance(1, 2) { gop("pre256_reuse", &[r.below(6), rk(r)], r) } else if r.chance(1, 2) { gop("pre256_pack", &[r.below(6), rk(r), r.below(6)], r) } else { gop("pre256", &[r.below(6)], r) } },
+    Fam { name: "pre3", cost: 150, gen: |r, _| match r.below(7) { 0 => gop("pre3", &[r.below(10)], r), 1 | 2 => gop("pre3_reuse", &[r.below(10), rk(r)], r), 3 => gop("pre3_pack", &[r.below(10), rk(r), r.below(10)], r), _ => gop("mul3", &[r.below(10), rk(r)], r) } },
+    Fam { name: "pre256", cost: 400, gen: |r, c| if c.with_256 && r.chance(4, 6) { gop("mul256", &[r.below(10), rk(r)], r) } else if r.chance(1, 2) { gop("pre256_reuse", &[r.below(10), rk(r)], r) } else if r.chance(1, 2) { gop("pre256_pack", &[r.below(10), rk(r), r.below(10)], r) } else { gop("pre256", &[r.below(10)], r) } },
     Fam {
         name: "msm",
         cost: 1500,
@@ -1028,20 +1028,20 @@ const FAMS: &[Fam] = &[
             }
         },
     },
-    Fam { name: "encode", cost: 200, gen: |r, _| if r.chance(1, 3) { gop("compress", &[r.below(6)], r) } else { gop("decode", &[r.below(20), r.below(2)], r) } },
-    Fam { name: "serdes", cost: 400, gen: |r, _| match r.below(4) { 0 => Op::new("fr_serdes", &[r.below(8), r.below(5)]), 1 => Op::new("fq12_serdes", &[r.below(6), r.below(5)]), _ => gop("serdes", &[r.below(6), r.below(2), r.below(2), r.below(5)], r) } },
+    Fam { name: "encode", cost: 200, gen: |r, _| if r.chance(1, 3) { gop("compress", &[r.below(10)], r) } else { gop("decode", &[r.below(20), r.below(2)], r) } },
+    Fam { name: "serdes", cost: 400, gen: |r, _| match r.below(4) { 0 => Op::new("fr_serdes", &[r.below(8), r.below(5)]), 1 => Op::new("fq12_serdes", &[r.below(10), r.below(5)]), _ => gop("serdes", &[r.below(10), r.below(2), r.below(2), r.below(5)], r) } },
     Fam { name: "h2c", cost: 1200, gen: |r, _| gop(if r.chance(1, 2) { "h2c" } else { "e2c" }, &[r.below(4), r.below(8), r.below(6), r.below(2)], r) },
-    Fam { name: "insub", cost: 400, gen: |r, _| gop("insub", &[r.below(8)], r) },
-    Fam { name: "prepare", cost: 300, gen: |r, _| gop("prepare", &[r.below(6)], r) },
+    Fam { name: "insub", cost: 400, gen: |r, _| gop("insub", &[r.below(12)], r) },
+    Fam { name: "prepare", cost: 300, gen: |r, _| gop("prepare", &[r.below(10)], r) },
     Fam { name: "miller", cost: 1500, gen: |r, _| Op::new("miller", &[r.below(4), r.below(6), r.below(6), r.below(2)]) },
     Fam { name: "finalexp", cost: 1500, gen: |r, _| Op::new("finalexp", &[r.below(6)]) },
     Fam {
         name: "pairing",
         cost: 3500,
         gen: |r, _| match r.below(4) {
-            0 => Op::new("pairing", &[r.below(6), r.below(6)]),
-            1 => Op::new("pairing_with", &[r.below(2), r.below(6), r.below(6)]),
-            2 => Op::new("pairing_product", &[r.below(6), r.below(6), r.below(6), r.below(6)]),
+            0 => Op::new("pairing", &[r.below(10), r.below(10)]),
+            1 => Op::new("pairing_with", &[r.below(2), r.below(10), r.below(10)]),
+            2 => Op::new("pairing_product", &[r.below(10), r.below(10), r.below(10), r.below(10)]),
             _ => Op::new("pairing_multi", &[r.below(6), r.below(6), r.below(6)]),
         },
     },
@@ -1104,7 +1104,7 @@ pub fn gen_wide(seed: u64, idx: usize, cfg: &GenCfg) -> SchedPlan {
     let mut views_s = vec![];
     for gi in 0..2 {
         for _ in 0..cfg.nviews_b[gi] {
-            views_b.push(((gi + 1) as u8, r.below(6), r.below(12)));
+            views_b.push(((gi + 1) as u8, r.below(10), r.below(12)));
         }
         for _ in 0..cfg.nviews_s[gi] {
             views_s.push(((gi + 1) as u8, rk(&mut r)));
@@ -1146,7 +1146,7 @@ pub fn gen_long(seed: u64, idx: usize, cfg: &GenCfg) -> SchedPlan {
     let mut views_s = vec![];
     for gi in 0..2 {
         for _ in 0..cfg.nviews_b[gi] {
-            views_b.push(((gi + 1) as u8, r.below(6), r.below(12)));
+            views_b.push(((gi + 1) as u8, r.below(10), r.below(12)));
         }
         for _ in 0..cfg.nviews_s[gi] {
             views_s.push(((gi + 1) as u8, rk(&mut r)));
@@ -1301,7 +1301,7 @@ pub fn gen_plan(seed: u64, cfg: &GenCfg) -> SchedPlan {
     let mut views_s = vec![];
     for gi in 0..2 {
         for _ in 0..cfg.nviews_b[gi] {
-            views_b.push(((gi + 1) as u8, r.below(6), r.below(12)));
+            views_b.push(((gi + 1) as u8, r.below(10), r.below(12)));
         }
         for _ in 0..cfg.nviews_s[gi] {
             views_s.push(((gi + 1) as u8, rk(&mut r)));
